@@ -1027,9 +1027,10 @@ func (in *inliner) expand(ce *ast.CallExpr, g *types.Func, lhs []ast.Expr, tok t
 		return keep("result count")
 	}
 	for _, st := range fd.Body.List {
-		if _, isDefer := st.(*ast.DeferStmt); isDefer {
+		if _, isDefer := st.(*ast.DeferStmt); isDefer && !(terminal && consume != nil) {
 			// deferred calls run between the helper's return and the use of its results:
-			// no duplication of the consumer into the return points
+			// no duplication of the consumer into the return points (except for `return h(...)`,
+			// where the deferred calls are written out before each duplicated return - below)
 			consume, terminal = nil, false
 		}
 	}
@@ -1235,17 +1236,44 @@ func (in *inliner) expand(ce *ast.CallExpr, g *types.Func, lhs []ast.Expr, tok t
 	// the helper's return point (in reverse order), before the caller uses the results
 	var deferredCalls []ast.Stmt
 	hasDefers := false
+	// `return helper(...)`: the helper's deferred calls run after its results are computed and
+	// before the caller's own return - at every return point of the helper it is known which of
+	// its (top-level) defers are registered, so the calls are written out there, before the
+	// duplicated `return`, instead of after a common end under run-time flags
+	termDefers := terminal && consume != nil
+	var rawCalls []*ast.CallExpr
+	var rawIdx []int
+	retTop := map[*ast.ReturnStmt]int{}
+	if termDefers {
+		for j, st := range body.List {
+			j := j
+			ast.Inspect(st, func(n ast.Node) bool {
+				switch x := n.(type) {
+				case *ast.FuncLit:
+					return false
+				case *ast.ReturnStmt:
+					retTop[x] = j
+				}
+				return true
+			})
+		}
+	}
 	for i, st := range fd.Body.List {
 		ds, ok := st.(*ast.DeferStmt)
 		if !ok {
 			continue
 		}
 		hasDefers = true
-		consume, terminal = nil, false
+		if !termDefers {
+			consume, terminal = nil, false
+		}
 		k := len(deferredCalls)
 		flag := fmt.Sprintf("%sd%d", pfx, k)
-		pre = append(pre, declVar(flag, types.Typ[types.Bool], nil))
-		reg := []ast.Stmt{&ast.AssignStmt{Lhs: []ast.Expr{ast.NewIdent(flag)}, Tok: token.ASSIGN, Rhs: []ast.Expr{ast.NewIdent("true")}}}
+		var reg []ast.Stmt
+		if !termDefers {
+			pre = append(pre, declVar(flag, types.Typ[types.Bool], nil))
+			reg = []ast.Stmt{&ast.AssignStmt{Lhs: []ast.Expr{ast.NewIdent(flag)}, Tok: token.ASSIGN, Rhs: []ast.Expr{ast.NewIdent("true")}}}
+		}
 		cds := body.List[i].(*ast.DeferStmt)
 		call := &ast.CallExpr{}
 		switch fx := ds.Call.Fun.(type) {
@@ -1282,6 +1310,8 @@ func (in *inliner) expand(ce *ast.CallExpr, g *types.Func, lhs []ast.Expr, tok t
 		}
 		body.List[i] = &ast.BlockStmt{List: reg}
 		deferredCalls = append(deferredCalls, &ast.IfStmt{Cond: ast.NewIdent(flag), Body: &ast.BlockStmt{List: []ast.Stmt{&ast.ExprStmt{X: call}}}})
+		rawCalls = append(rawCalls, call)
+		rawIdx = append(rawIdx, i)
 	}
 	mkReturn := func(rs *ast.ReturnStmt, last bool) ast.Stmt {
 		var list []ast.Stmt
@@ -1309,6 +1339,33 @@ func (in *inliner) expand(ce *ast.CallExpr, g *types.Func, lhs []ast.Expr, tok t
 						return rs
 					}
 					vals = append(vals, &ast.CallExpr{Fun: &ast.ParenExpr{X: te}, Args: []ast.Expr{r}})
+				}
+			}
+			if termDefers && len(rawCalls) > 0 {
+				j, known := retTop[rs]
+				if !known {
+					bad = "return point not located"
+					return rs
+				}
+				if len(vals) > 0 {
+					var tmps []ast.Expr
+					for vi := range vals {
+						in.n++
+						tmps = append(tmps, ast.NewIdent(fmt.Sprintf("%st%d_%d", pfx, in.n, vi)))
+					}
+					list = append(list, &ast.AssignStmt{Lhs: tmps, Tok: token.DEFINE, Rhs: vals})
+					for _, t := range tmps {
+						list = append(list, use(t.(*ast.Ident).Name))
+					}
+					vals = nil
+					for _, t := range tmps {
+						vals = append(vals, ast.NewIdent(t.(*ast.Ident).Name))
+					}
+				}
+				for k := len(rawCalls) - 1; k >= 0; k-- {
+					if rawIdx[k] < j {
+						list = append(list, &ast.ExprStmt{X: copyNode(rawCalls[k]).(*ast.CallExpr)})
+					}
 				}
 			}
 			list = append(list, consume(vals)...)
@@ -1390,7 +1447,7 @@ func (in *inliner) expand(ce *ast.CallExpr, g *types.Func, lhs []ast.Expr, tok t
 			tail = &ast.EmptyStmt{}
 		}
 	}
-	if hasDefers {
+	if hasDefers && !termDefers {
 		if usedGoto {
 			out = append(out, &ast.LabeledStmt{Label: ast.NewIdent(label), Stmt: &ast.EmptyStmt{}})
 		}
